@@ -208,5 +208,15 @@ def scope_value(tok):
             return bool(tok[1])
         if k == "fs":
             return frozenset(scope_value(x) for x in tok[1])
+        if k == "dtn":
+            import datetime as _dt
+
+            return _dt.datetime(2024, 1, 1) + _dt.timedelta(seconds=tok[1])
+        if k == "dta":
+            import datetime as _dt
+
+            return _dt.datetime(2024, 1, 1, tzinfo=_dt.timezone.utc) + _dt.timedelta(seconds=tok[1])
+        if k == "cplx":
+            return complex(tok[1], 1)
         raise ValueError(tok)
     return tok
